@@ -239,6 +239,27 @@ def cfer_count(self: 'any_rule'):
     modifies_ghost('nH', 'nE', 'nD', 'nP', 'nlog', 'lasttag', 'lastmsg')
 
 
+@loops('droop.rules.cfer.Rule.count', anchor='for#3')
+def cfer_elect_loop(self):
+    "10059(d)-(f): a candidate reaching the threshold is elected; the surplus transfer is pending iff the tally exceeds the threshold"
+    E = self.E
+    invariant(forall('ref:droop.candidate.Candidate',
+                     lambda c: implies(and_(in_election(c), c.state == 'elected', truthy(c.pending)), c.vote > E.quota)))
+
+
+@loops('droop.rules.cfer.Rule.count', anchor='for#7')
+def cfer_surplus_loop(self):
+    "10059(g): every pending surplus is transferred in the same round, one elected candidate after the other"
+    E = self.E
+    invariant(forall('ref:droop.candidate.Candidate',
+                     lambda c: implies(and_(in_election(c), c.state == 'elected', truthy(c.pending)), c.vote > E.quota)))
+    invariant(E.quota > E.V0)
+    invariant(ghost('nP') == old(ghost('nP')) - it)
+    invariant(ghost('nH') == old(ghost('nH')))
+    invariant(ghost('nE') == old(ghost('nE')))
+    invariant(ghost('nD') == old(ghost('nD')))
+
+
 @loops('droop.rules.cfer.Rule.count', anchor='while#1')
 def cfer_main_loop(self):
     E = self.E
@@ -247,6 +268,8 @@ def cfer_main_loop(self):
     invariant(E.quota > E.V0)
     invariant(E.round >= 0)
     invariant(ghost('nH') + ghost('nE') >= E.electionProfile.nSeats)
+    invariant(implies(E.round == 0, and_(ghost('nP') == 0, ghost('nE') == 0)))      # before the first round nobody is elected
+    invariant(implies(E.round >= 1, ghost('nH') + ghost('nE') > E.electionProfile.nSeats))     # else the previous round ended the count
     variant(2 * ghost('nH') + ghost('nP'))
 
 
